@@ -9,7 +9,8 @@
 From Coq Require Import ZArith List Reals Ring_theory.
 From Coquelicot Require Import Coquelicot.
 From Adept Require Import Scalar ExprDefs Expr ExprProofs ExprScalar ExprScalarProofs Tape TapeAdjoint Program ProgramProofs ExprReal.
-From AdeptGen Require Import Gen_Ops.
+From Adept Require Import ActiveDefs.
+From AdeptGen Require Import Gen_Ops Gen_Active.
 Import ListNotations.
 
 Section AnyRing.
@@ -100,6 +101,17 @@ Theorem C01_scalar_wrapper_tables :
   snode_left_ok scalar_left_node scalar_left_ops /\ snode_right_ok scalar_right_node scalar_right_ops.
 Proof. exact (conj generated_left_ok generated_right_ok). Qed.
 Print Assumptions C01_scalar_wrapper_tables.
+
+(* every constructor, assignment and compound assignment of Active<T> and ActiveReference<T>, TRANSLATED from Active.h /
+   ActiveReference.h (the recorded effect of each body recognised token by token): a passive right-hand side records the
+   left-hand side only (PSetP), an active scalar or expression goes through scalar_value_and_gradient with a reservation
+   that covers its pushes and then push_lhs (PSetE), x op= e is x = x op e with the same operator, x += c and x -= c change
+   the value only (PAddP), x *= c and x /= c are x = x op c; all overloads are present *)
+Theorem C01_active_overloads :
+  forallb (overload_ok false) active_overloads = true /\ overloads_complete active_overloads = true /\
+  forallb (overload_ok true) active_reference_overloads = true /\ overloads_complete active_reference_overloads = true.
+Proof. vm_compute. repeat split. Qed.
+Print Assumptions C01_active_overloads.
 
 (* the derivative expressions of the unary table and the binary partial derivatives are the true derivatives over R.
    _partial: asin, acos, erf, erfc, cbrt, atan2 and the (zero) derivatives of the rounding functions are not covered *)
